@@ -39,6 +39,18 @@ func (r *RigS) afterStep(crashing bool) {
 		if raw != r.lastStore {
 			r.lastStore = raw
 			r.checkCheckpoints()
+			if tasks, err := r.storeTasks(); err == nil {
+				for id, ti := range tasks {
+					if ti.State == meta.TaskStatePaused && ti.Reason != "" && !strings.HasPrefix(ti.Reason, "manually pause") && !strings.HasPrefix(ti.Reason, "the task is disabled auto start") {
+						if t := r.st.Tasks[id]; t != nil && t.Spec != nil && t.Spec.tgt() >= 0 {
+							if r.bgPaused == nil {
+								r.bgPaused = map[int]bool{}
+							}
+							r.bgPaused[t.Spec.tgt()] = true
+						}
+					}
+				}
+			}
 		}
 	}
 	if r.pendingOp != nil && !crashing && r.quiescent() {
@@ -1104,6 +1116,9 @@ func (r *RigS) finalOracles() {
 		s.Probe("liveness_checked")
 		if len(lost) > 0 {
 			cls := r.classOf(tasks, owner)
+			if cls == "" && r.bgPaused[tgt] {
+				cls = "_bystander_of_failed_task"
+			}
 			if cls == "" {
 				for id2, t2 := range tasks {
 					if id2 != owner && ukeyOf(t2) == ukeyOf(tasks[owner]) && t2.State == meta.TaskStatePaused && t2.Reason != "" && !strings.HasPrefix(t2.Reason, "manually pause") {
